@@ -47,7 +47,7 @@ def h_target(ctx, chroms, split, avg, m=200):
     try:
         out = target.do_target(ga, None, True, split, avg)
     except Exception as exc:
-        ctx.claim(False, f"do_target raised {type(exc).__name__}: {str(exc)[:60]}")
+        ctx.claim(False, f"do_target raised {type(exc).__name__}", info=str(exc)[:200])
         return
     orows = [tuple(r) for r in out.data.itertuples(index=False)]
     ctx.observe("rows", [list(r[:3]) for r in orows])
@@ -121,7 +121,7 @@ def h_antitarget(ctx, t_chroms, access_mode, avg, mn, m=6000, case=None):
     try:
         out = antitarget.do_antitarget(targets, access, avg, mn)
     except Exception as exc:
-        ctx.claim(False, f"do_antitarget raised {type(exc).__name__}: {str(exc)[:60]}")
+        ctx.claim(False, f"do_antitarget raised {type(exc).__name__}", info=str(exc)[:200])
         return
     orows = [tuple(r) for r in out.data.itertuples(index=False)]
     ctx.observe("rows", [list(r[:3]) for r in orows])
